@@ -78,6 +78,12 @@ def gen_pil(rng, tier="quick", allow_dups=True, allow_contaminants=True, max_tar
     # --- contaminants
     if allow_contaminants and rng.random() < 0.15:
         add(["CON__P%d" % rng.randint(1, 3)], anyp())
+    # --- a target that carries an entrapment-style identifier (still a target for the decoy FDR)
+    if rng.random() < 0.1:
+        t = rng.choice(targets)
+        new = rng.choice(["%s_entrapment", "Random_%s", "mimic_%s"]) % t
+        for e in entries:
+            e[2] = [new if q == t else (q.replace(t, new) if q.endswith(t) and q != t else q) for q in e[2]]
     # --- gene-level duplicates: a protein listed twice for a peptide
     if allow_dups and rng.random() < 0.12 and entries:
         e = rng.choice(entries)
@@ -95,6 +101,62 @@ def gen_pil(rng, tier="quick", allow_dups=True, allow_contaminants=True, max_tar
         if rng.random() < 0.3:
             rng.shuffle(e[2])
     return entries
+
+
+def gen_rescue_pil(rng, tier="quick"):
+    """A peptide list built to exercise the rescue merge at protein-group FDR threshold 0.2001:
+    5-6 anchor targets with strong unique peptides (accepted: q = 1/6 or 1/7), two or three decoys in between, then a
+    cluster of proteins whose only unique peptides are weak (removed by the rescue cutoff) and which are linked by
+    strong shared-only peptides in a chain / cycle / star / clique, so that the second grouping leaves connected
+    groups without a peptide of their own and the min-cut decoupling runs.  Returns (entries, threshold)."""
+    used = set()
+    entries = []
+
+    def add(prots, pep):
+        entries.append([_pep_name(rng, used), pep, list(prots)])
+
+    na = rng.randint(5, 6)
+    for i in range(1, na + 1):
+        for _ in range(rng.randint(1, 2)):
+            add(["P%d" % i], rng.choice(PEP_GRID[9:]))  # <= 1e-4
+    for i in range(rng.randint(2, 3)):
+        add(["REV__P%d" % rng.randint(1, na)], rng.choice(PEP_GRID[5:8]))  # ~1e-2 .. 1e-3
+    nc = rng.randint(3, 5 if tier == "quick" else 6)
+    cl = ["C%d" % i for i in range(1, nc + 1)]
+    for c in cl:
+        if rng.random() < 0.8:
+            add([c], rng.choice(PEP_GRID[:5]))  # weak unique peptide: >= 2e-2
+    topo = rng.choice(["chain", "cycle", "star", "clique", "chain+extra"])
+    strongish = lambda: rng.choice(PEP_GRID[9:] if rng.random() < 0.85 else PEP_GRID)  # noqa: E731
+    if topo in ("chain", "cycle", "chain+extra"):
+        for a, b in zip(cl, cl[1:]):
+            add([a, b], strongish())
+        if topo == "cycle":
+            add([cl[-1], cl[0]], strongish())
+        if topo == "chain+extra":
+            a, b = rng.sample(cl, 2)
+            add([a, b], strongish())
+    elif topo == "star":
+        for q in cl[1:]:
+            add([cl[0], q], strongish())
+    else:
+        for i in range(nc):
+            for j in range(i + 1, nc):
+                if rng.random() < 0.7:
+                    add([cl[i], cl[j]], strongish())
+    if rng.random() < 0.3:  # a three-way shared peptide
+        add(rng.sample(cl, 3), strongish())
+    if rng.random() < 0.3:  # an anchor sharing a peptide with the cluster
+        add(["P%d" % rng.randint(1, na), rng.choice(cl)], strongish())
+    if rng.random() < 0.4:  # decoy mirror of part of the cluster
+        for pep, score, prots in list(entries):
+            if prots[0].startswith("C") and rng.random() < 0.4:
+                add(["REV__" + q for q in prots], rng.choice(PEP_GRID[:9]))
+    rng.shuffle(entries)
+    for e in entries:
+        if rng.random() < 0.3:
+            rng.shuffle(e[2])
+    return entries, 0.2001
 
 
 def pil_to_dict(pil):
